@@ -454,8 +454,7 @@ class PyWriter(Writer):
        'time-fraction-zeros'
                         CER/DER: every 0 among the first fraction digits of a GeneralizedTime is deleted
        'emptyable-optional'
-                        BER: an absent OPTIONAL component whose type is a SEQUENCE/SET without mandatory
-                        members is written as present-and-empty; CER/DER: an OPTIONAL component whose
+                        CER/DER: an OPTIONAL component whose
                         constructed encoding has no contents is dropped, and the same test leaks into
                         SEQUENCE OF/SET OF elements and CHOICE alternatives below an OPTIONAL component
     """
@@ -574,12 +573,9 @@ class PyWriter(Writer):
                         continue
                 elif pres == 'def' and U.canon(ft, fv) == U.canon(ft, dv):
                     continue
-            elif emu and pres == 'opt' and self.emptyable(ft):
-                # any read of the component (the encoder's own included) makes it present-and-empty
-                fv = U.materialised_empty(U.base_of(ft))
-                if self.codec == 'BER':
-                    self.used.add('emptyable-optional')
             else:
+                # (until fix b7c... the encoder's own read instantiated an absent OPTIONAL record without mandatory
+                # members and BER wrote it present-and-empty; the encoders no longer instantiate what is absent)
                 continue
             ifne = emu and self.codec in ('CER', 'DER') and pres == 'opt'
             e = self.enc(ft, fv, None, ifne)
